@@ -173,12 +173,18 @@ def r6_2(repo: Repo) -> RuleResult:
     rr = RuleResult("R6.2", "skip-gram column ids are decoded with the multiplier they were encoded with", floor=1)
     SG = "vectorizers/skip_gram_vectorizer.py"
     enc = repo.func(SG, "skip_grams_matrix_coo_data")
+    # the column list is the second array the encoder returns
+    enc_rets = [n for n in walk_no_nested(enc.node) if isinstance(n, _ast.Return) and isinstance(n.value, _ast.Tuple) and len(n.value.elts) == 3]
+    if not enc_rets:
+        raise AnalysisError("R6.2: skip_grams_matrix_coo_data no longer returns (rows, cols, data)")
+    col_names = [x.id for x in _ast.walk(enc_rets[0].value.elts[1]) if isinstance(x, _ast.Name) and x.id not in ("np",)]
+    col_list = col_names[0] if col_names else "result_col"
     c = repo.cls(SG, "SkipgramVectorizer")
     fit = repo.resolve_method(c, "fit")
     # encoder: result_col.append(A * n + B)
     mult = None
     for n in walk_no_nested(enc.node):
-        if isinstance(n, _ast.Call) and norm(n.func) == "result_col.append" and isinstance(n.args[0], _ast.BinOp) and isinstance(n.args[0].op, _ast.Add):
+        if isinstance(n, _ast.Call) and norm(n.func) == "%s.append" % col_list and isinstance(n.args[0], _ast.BinOp) and isinstance(n.args[0].op, _ast.Add):
             left = n.args[0].left
             if isinstance(left, _ast.BinOp) and isinstance(left.op, _ast.Mult):
                 mult = expand_locals(left.right, enc, 2)
@@ -204,17 +210,19 @@ def r6_2(repo: Repo) -> RuleResult:
             rr.facts["length_fact"] = "len(%s) = %s (derived from both window functions)" % (norm(ws), norm(env["len(%s)" % norm(ws)]))
     enc_norm = sym.poly(_ast.parse(mult_txt, mode="eval").body, env)
     # decoder: raw // M and raw % M
+    cands = [n for n in walk_no_nested(fit.node) if isinstance(n, _ast.BinOp) and isinstance(n.op, (_ast.FloorDiv, _ast.Mod))]
     mods = []
-    for n in walk_no_nested(fit.node):
-        if isinstance(n, _ast.BinOp) and isinstance(n.op, (_ast.FloorDiv, _ast.Mod)) and norm(n.left) == "raw_val":
-            mods.append(n)
+    for a_ in cands:
+        for b_ in cands:
+            if isinstance(a_.op, _ast.FloorDiv) and isinstance(b_.op, _ast.Mod) and norm(a_.left) == norm(b_.left):
+                mods = [a_, b_]
     if len(mods) != 2:
         raise AnalysisError("R6.2: decode expressions raw_val // M and raw_val %% M not found in SkipgramVectorizer.fit")
     for n in mods:
         m_expr = expand_locals(n.right, fit, 2)
         dec = sym.poly(m_expr, env)
         op = "//" if isinstance(n.op, _ast.FloorDiv) else "%"
-        construct = "raw_val %s M" % op
+        construct = "raw_val %s M" % op  # construct name kept stable for the known-findings key
         if dec == enc_norm:
             rr.ok(fit, construct, "M = `%s` equals the encoder's multiplier `%s`" % (norm(m_expr), mult_txt), n.lineno)
         elif norm(m_expr) == "len(self._token_dictionary_)":
